@@ -115,6 +115,9 @@ func c05serve(f *flamego.Flame, q *Sx, tok string) string {
 			hdr[http.CanonicalHeaderKey(h.Args()[0].Bytes())] = []string{}
 		} else {
 			hdr.Set(h.Args()[0].Bytes(), h.Args()[1].Bytes())
+			for _, more := range h.Args()[2:] {
+				hdr.Add(h.Args()[0].Bytes(), more.Bytes())
+			}
 		}
 	}
 	w := &wireWriter{hdr: http.Header{}}
